@@ -12,9 +12,9 @@ MEM_KB = 12 * 1024 * 1024
 
 RESULT_RE = re.compile(r'^\[([^\]]+)\] (?:line (\d+) )?(.*): (SUCCESS|FAILURE|UNKNOWN|ERROR)$')
 BAD_LOG = re.compile(r'ignoring|Parse Error|invariant violation|Invariant check failed|TODO|unsupported|'
-                     r'warning: .*no body for function|SMT2 solver returned error|error:|unexpected', re.I)
+                     r'warning: .*no body for function|SMT2 solver returned error|error:|unexpected|is not declared', re.I)
 OK_LOG = re.compile(r'no body for function (__CPROVER_uninterpreted_\w+|harness)|'
-                    r'warning: ignoring asm|function .*is not declared|'
+                    r'warning: ignoring asm|function .__CPROVER_\w+. is not declared|'
                     r'\*\*\*\* WARNING: no body for function __CPROVER_uninterpreted', re.I)
 
 
